@@ -148,6 +148,7 @@ def parseOp : List String → Option Op
     some (.setdel db rp id a)
   | ["dropshard", id] => (toId? id).map .dropshard
   | ["pre", a, b] => do some (.pre (← toI64? a) (← toI64? b))
+  | ["trunc", t] => (toI64? t).map .trunc
   | _ => none
 
 /-! ### parsing answers -/
